@@ -31,7 +31,7 @@ def demo_flags():
         return []
     fl = []
     for f in ("-fsanitize=thread", "-fsanitize=address,undefined", "-fsanitize=address", "-DNDEBUG"):
-        if f in txt.split("\n\n")[0] or f in txt.splitlines()[0]:
+        if f in txt.splitlines()[0].split("#")[0]:
             fl.append(f)
     if "-fsanitize=address,undefined" in fl and "-fsanitize=address" in fl:
         fl.remove("-fsanitize=address")
